@@ -1,0 +1,132 @@
+// Verification instrumentation. Compiled only with `--cfg clockbound_verif`; with the flag off
+// this file is not part of the build.
+//
+// - `fault(point)`: fault-injection points in the worker loops. Armed through the environment
+//   variable `CLOCKBOUND_VERIF_FAULT=<point>:<iteration>:<panic|return>` or `arm()`. When the
+//   `<iteration>`-th visit (0-based) of `<point>` happens, the calling thread panics, or
+//   `fault()` returns true and the caller returns from its entry point.
+// - `event(..)`: one ndjson line per thread-manager event, globally ordered by a sequence
+//   number taken under a lock, appended to the file named by `CLOCKBOUND_VERIF_TRACE` and kept
+//   in memory for in-process harnesses.
+
+use std::collections::HashMap;
+use std::io::Write;
+use std::sync::Mutex;
+
+#[derive(Clone, Debug)]
+pub struct FaultSpec {
+    pub point: String,
+    pub iteration: u64,
+    pub panic: bool,
+}
+
+struct State {
+    armed: Option<FaultSpec>,
+    env_checked: bool,
+    visits: HashMap<String, u64>,
+    seq: u64,
+    events: Vec<String>,
+    sink: Option<std::fs::File>,
+}
+
+static STATE: Mutex<Option<State>> = Mutex::new(None);
+
+fn with_state<R>(f: impl FnOnce(&mut State) -> R) -> R {
+    let mut g = STATE.lock().unwrap_or_else(|e| e.into_inner());
+    if g.is_none() {
+        let sink = std::env::var("CLOCKBOUND_VERIF_TRACE").ok().and_then(|p| {
+            std::fs::OpenOptions::new()
+                .create(true)
+                .append(true)
+                .open(p)
+                .ok()
+        });
+        *g = Some(State {
+            armed: None,
+            env_checked: false,
+            visits: HashMap::new(),
+            seq: 0,
+            events: Vec::new(),
+            sink,
+        });
+    }
+    f(g.as_mut().unwrap())
+}
+
+/// Arm (or disarm) a fault programmatically and reset the visit counters and the event log.
+pub fn arm(spec: Option<FaultSpec>) {
+    with_state(|s| {
+        s.armed = spec;
+        s.env_checked = true;
+        s.visits.clear();
+        s.seq = 0;
+        s.events.clear();
+    })
+}
+
+/// Return the events recorded so far (ndjson lines).
+pub fn take_events() -> Vec<String> {
+    with_state(|s| std::mem::take(&mut s.events))
+}
+
+/// Record one event. `thread` is the logical thread ("main", "poller", "writer").
+pub fn event(thread: &str, name: &str, detail: &str) {
+    with_state(|s| {
+        s.seq += 1;
+        let line = format!(
+            "{{\"n\":{},\"p\":\"{}\",\"ev\":\"{}\",\"detail\":\"{}\"}}",
+            s.seq, thread, name, detail
+        );
+        if let Some(f) = s.sink.as_mut() {
+            let _ = writeln!(f, "{}", line);
+            let _ = f.flush();
+        }
+        s.events.push(line);
+    })
+}
+
+/// A fault-injection point. Panics if a `panic` fault is armed for this visit; returns true if
+/// a `return` fault is armed for this visit (the caller must then return from its entry point).
+pub fn fault(thread: &str, point: &str) -> bool {
+    let fire = with_state(|s| {
+        if !s.env_checked {
+            s.env_checked = true;
+            if let Ok(v) = std::env::var("CLOCKBOUND_VERIF_FAULT") {
+                let parts: Vec<&str> = v.split(':').collect();
+                if parts.len() == 3 {
+                    s.armed = Some(FaultSpec {
+                        point: parts[0].to_string(),
+                        iteration: parts[1].parse().unwrap_or(0),
+                        panic: parts[2] == "panic",
+                    });
+                }
+            }
+        }
+        let n = s.visits.entry(point.to_string()).or_insert(0);
+        let visit = *n;
+        *n += 1;
+        match &s.armed {
+            Some(f) if f.point == point && f.iteration == visit => Some(f.panic),
+            _ => None,
+        }
+    });
+    match fire {
+        None => false,
+        Some(true) => {
+            event(thread, "Fail", &format!("panic@{}", point));
+            panic!("clockbound_verif injected panic at {}", point)
+        }
+        Some(false) => {
+            event(thread, "Fail", &format!("return@{}", point));
+            true
+        }
+    }
+}
+
+pub fn thread_name(id: &crate::ChannelId) -> &'static str {
+    match id {
+        crate::ChannelId::MainThread => "main",
+        crate::ChannelId::ClockErrorBoundPoller => "poller",
+        crate::ChannelId::ShmWriter => "writer",
+    }
+}
